@@ -2631,6 +2631,57 @@ fn gen_hostile_c(rng: &mut Rng, seed: u64, index: u64, _long: bool) -> Scenario 
     sc
 }
 
+/// JSON schemas built to stress the compiler's guards rather than its language: $ref alias chains
+/// and cycles (with and without something to intersect with), legitimately recursive definitions,
+/// numeric bounds and multipleOf at and beyond the i64 / f64 edges.
+pub fn hostile_json_schema(rng: &mut Rng) -> String {
+    let names = ["a", "b", "c", "d"];
+    match rng.below(4) {
+        0 | 1 => {
+            // alias chain of length n, closed into a cycle or ending in a real schema
+            let n = rng.range(1, 4);
+            let cyclic = rng.chance(0.7);
+            let mut defs = vec![];
+            for i in 0..n {
+                let target = if i + 1 < n {
+                    format!("{{\"$ref\":\"#/$defs/{}\"}}", names[i + 1])
+                } else if cyclic {
+                    format!("{{\"$ref\":\"#/$defs/{}\"}}", names[rng.below(n)])
+                } else {
+                    "{\"type\":\"integer\",\"minimum\":0}".to_string()
+                };
+                defs.push(format!("\"{}\":{}", names[i], target));
+            }
+            let r = format!("{{\"$ref\":\"#/$defs/{}\"}}", names[0]);
+            let other = *rng.pick(&["{\"type\":\"object\"}", "{\"type\":\"integer\"}", "{\"minimum\":3}", "{}"]);
+            let body = match rng.below(5) {
+                0 => format!("\"allOf\":[{r},{other}]"),
+                1 => format!("\"$ref\":\"#/$defs/{}\",\"type\":\"integer\"", names[0]),
+                2 => format!("\"type\":\"object\",\"properties\":{{\"x\":{{\"allOf\":[{r},{other}]}}}}"),
+                3 => format!("\"anyOf\":[{r},{other}]"),
+                _ => format!("\"$ref\":\"#/$defs/{}\"", names[0]),
+            };
+            format!("{{\"$defs\":{{{}}},{}}}", defs.join(","), body)
+        }
+        2 => "{\"$defs\":{\"n\":{\"type\":\"object\",\"properties\":{\"v\":{\"type\":\"integer\"},\"next\":{\"$ref\":\"#/$defs/n\"}},\"additionalProperties\":false}},\"$ref\":\"#/$defs/n\"}".to_string(),
+        _ => {
+            let edge = ["-1e20", "-99999999999999999999", "-9223372036854775808", "-9223372036854775807", "9223372036854775807", "9223372036854775808", "1e19", "1e308", "-1e308", "0", "-1", "195", "0.1", "4294967296"];
+            let mult = ["1e-9", "3", "5", "1e18", "4294967296", "0.30000000000000004", "9223372036854775807", "1e-320"];
+            let mut parts = vec![format!("\"type\":\"{}\"", if rng.chance(0.6) { "integer" } else { "number" })];
+            if rng.chance(0.8) {
+                parts.push(format!("\"{}\":{}", if rng.chance(0.7) { "minimum" } else { "exclusiveMinimum" }, rng.pick(&edge)));
+            }
+            if rng.chance(0.8) {
+                parts.push(format!("\"{}\":{}", if rng.chance(0.7) { "maximum" } else { "exclusiveMaximum" }, rng.pick(&edge)));
+            }
+            if rng.chance(0.5) {
+                parts.push(format!("\"multipleOf\":{}", rng.pick(&mult)));
+            }
+            format!("{{\"type\":\"object\",\"properties\":{{\"a\":{{{}}}}},\"required\":[\"a\"],\"additionalProperties\":false}}", parts.join(","))
+        }
+    }
+}
+
 fn gen_c20(rng: &mut Rng, seed: u64, index: u64, long: bool) -> Scenario {
     let sub = rng.below(10);
     if sub == 9 {
@@ -2644,7 +2695,11 @@ fn gen_c20(rng: &mut Rng, seed: u64, index: u64, long: bool) -> Scenario {
     o.vocab_kinds = vec!["byte", "byte", "synth", "bpe"];
     let (mut world, productive) = gen_world(rng, &o);
     let mutated = sub < 3;
-    if sub == 3 {
+    if sub == 3 && rng.chance(0.35) {
+        world.grammar_kind = GKind::Json;
+        world.grammar_text = hostile_json_schema(rng);
+        world.grammar_id = "json~hostile".into();
+    } else if sub == 3 {
         world.grammar_kind = GKind::Lark;
         if rng.chance(0.7) {
             // parametric rules with indices / ranges / values at and just beyond their domain
